@@ -749,6 +749,7 @@ def _render(case, style):
     _SHARE = None
     if p is None:
         return text, []
+    p.get_parameters()           # "log the values, then execute": reading a collector must not consume it (seeded/C06-22)
     got = p.get_parameters()
     if isinstance(got, dict):
         params = [[str(k), tag_value(v)] for k, v in got.items()]
